@@ -134,6 +134,8 @@ fn main() {
         Some("c18") => c18::main(tier(args.get(1))),
         Some("c18-proc") => c18::proc_main(),
         Some("c19-real") => c19::real_main(),
+        Some("c19-one") => c19::one_main(&args[1..]),
+        Some("c19-worker") => c19::worker_main(&args[1..]),
         Some("kernel") => realkernel::main(tier(args.get(1))),
         Some("kernel-case") => realkernel::case_main(),
         Some("c20-batch") => c20::batch_main(&args[1..]),
